@@ -7,6 +7,7 @@ import (
 	"github.com/invopop/gobl/org"
 	"github.com/invopop/gobl/regimes/mx"
 	"github.com/invopop/gobl/tax"
+	"github.com/invopop/jsonschema"
 	"github.com/invopop/validation"
 )
 
@@ -209,4 +210,22 @@ func (fab *FuelAccountBalance) Calculate() error {
 	fab.Total = fab.Subtotal.Add(taxtotal)
 
 	return nil
+}
+
+// extendJSONSchemaWithTaxCode describes the named property as a Mexican tax
+// code (RFC), which unlike a regular code may contain "Ñ" and "&".
+func extendJSONSchemaWithTaxCode(js *jsonschema.Schema, property string) {
+	if p, ok := js.Properties.Get(property); ok {
+		p.Ref = ""
+		p.Type = "string"
+		p.AnyOf = []*jsonschema.Schema{
+			{Pattern: mx.TaxIdentityPatternPerson},
+			{Pattern: mx.TaxIdentityPatternCompany},
+		}
+	}
+}
+
+// JSONSchemaExtend adjusts the vendor's tax code of the generated schema.
+func (FuelAccountLine) JSONSchemaExtend(js *jsonschema.Schema) {
+	extendJSONSchemaWithTaxCode(js, "vendor_tax_code")
 }
